@@ -7,6 +7,7 @@ import (
 	"math"
 	"math/big"
 	"runtime"
+	"strconv"
 	"sync"
 	"testing"
 	"time"
@@ -498,6 +499,9 @@ func TestC09(t *testing.T) {
 	nBig := 4
 	if hx.Thorough() {
 		nBig = 6
+	}
+	if strconv.IntSize == 32 {
+		nBig = 0 // the bucket arrays of these widths do not fit a 32-bit address space
 	}
 	if sh < nBig {
 		b := bigCombos[sh]
